@@ -579,6 +579,32 @@ fn c08<X: L>(c: &mut Ctx, n: usize) {
                 d[lo] = d[lo].wrapping_add(1) & nvmask(n);
                 d[hi] = d[hi].wrapping_sub(1) & nvmask(n);
                 pairs.push((a.clone(), d));
+                // two word positions perturbed in opposite directions, every other word (in particular the top one,
+                // when q < hi) equal: the higher of the two positions decides
+                let mut pos: Vec<usize> = vec![0, 1.min(hi), hi, hi.saturating_sub(1)];
+                for _ in 0..4 {
+                    pos.push(c.rng.below(b.len()));
+                }
+                pos.sort();
+                pos.dedup();
+                for (ip, &p) in pos.iter().enumerate() {
+                    for &q in pos.iter().skip(ip + 1) {
+                        let mut e = a.clone();
+                        let up = c.rng.coin();
+                        let m = nvmask(n);
+                        let bump = |w: u64, inc: bool| -> u64 {
+                            if inc { if w == m { w - 1 } else { w + 1 } } else if w == 0 { 1 } else { w - 1 }
+                        };
+                        e[p] = bump(e[p], up);
+                        e[q] = bump(e[q], !up);
+                        pairs.push((a.clone(), e.clone()));
+                        // and a third position in between / below, so that three words differ
+                        if p > 0 {
+                            e[p - 1] = bump(e[p - 1], !up);
+                            pairs.push((e, a.clone()));
+                        }
+                    }
+                }
             }
         }
     }
